@@ -40,11 +40,11 @@ REQUIRED_PROBES = {
 
 # "*_only": the body is consumed to its end and nothing else is done -- reading to the end is what gives the connection back
 DISPOSALS = ["read_all", "read_k_release", "release_unread", "drain", "close_release", "close_only", "stream_all", "stream_part_release", "with_block", "drop", "data",
-             "read_all_only", "stream_all_only", "iter_only"]
+             "read_all_only", "stream_all_only", "iter_only", "read1_all_only", "readinto_all_only"]
 CLOSE_ONLY = ("close_only", "with_block", "drop")
 
 SEND_FAULTS = ["epipe", "reset", "eprototype", "eio", "intr", "timeout"]
-RECV_FAULTS = ["timeout", "reset", "eof", "intr", "eio"]
+RECV_FAULTS = ["timeout", "reset", "eof", "intr", "eio", "eagain"]
 CONN_FAULTS = ["refused", "timeout", "intr", "eio"]
 
 
@@ -154,11 +154,13 @@ def gen_base(rng, tier: str, faulty: bool) -> dict:
         sc["connects"] = []
     if rng.random() < 0.25:
         sc["close_without_probe"] = True
+    if rng.random() < 0.3:
+        sc["close_in_with"] = True  # the pool is closed by leaving a `with pool:` block in which an interrupt is raised
     if preload and cfg["release_conn"] is False:
         # release_conn=False is the caller's promise to release the connection itself: a preloaded body is read before the response
         # knows its pool, so merely iterating over it afterwards gives nothing back
         for o in ops:
-            if o["op"] == "dispose" and o["how"] in ("stream_all_only", "iter_only"):
+            if o["op"] == "dispose" and o["how"] in ("stream_all_only", "iter_only", "read1_all_only", "readinto_all_only"):
                 o["how"] = "stream_all"
     return sc
 
@@ -261,6 +263,13 @@ def _dispose(r, how: str) -> None:
             pass
     elif how == "iter_only":
         for _ in r:
+            pass
+    elif how == "read1_all_only":
+        while r.read1(64):
+            pass
+    elif how == "readinto_all_only":
+        buf = bytearray(64)
+        while r.readinto(buf):
             pass
     elif how == "with_block":
         with r:
@@ -464,7 +473,17 @@ def run(sc: dict) -> Result:
                 if n_open != N_:
                     res.bad("slot_lost@nonblock" if n_open < N_ else "socket_leak@release", f"{n_open} sockets open after releasing {want} leases on a non-blocking pool of maxsize {N_}")
             leases = conns = r = None
-            guarded("pool.close", pool.close)
+            if sc.get("close_in_with"):
+                try:
+                    with pool:
+                        raise W.SimInterrupt("raised inside `with pool:`")
+                except W.SimInterrupt as e:
+                    H.strip_tb(e)
+                    res.probes["with_block_propagates"] += 1
+                else:
+                    res.bad("interrupt_swallowed@with_pool", "an interrupt raised inside `with pool:` did not leave the block")
+            else:
+                guarded("pool.close", pool.close)
             H.collect()
             left = w.open_sockets()
             if left:
@@ -515,6 +534,10 @@ def shrinks(sc: dict):
             c = copy.deepcopy(sc)
             del c["ops"][i]
             yield c
+    if sc.get("close_in_with"):
+        c = copy.deepcopy(sc)
+        del c["close_in_with"]
+        yield c
     if sc.get("close_without_probe") is False:
         c = copy.deepcopy(sc)
         del c["close_without_probe"]
